@@ -58,13 +58,15 @@ def parseBTree (v : VersionIf) : Nat → Nat → PageType → Py (List BPage)
               else parseBTree v (fuel - cellDescentFrames) lc ccls
             | none => .error .parseError
           | none => pure [])
-        let sz : Int := if kind ≠ .tableInterior ∧ c.hasOverflow then c.end_ - c.start else c.byteSize
+        -- (a cell never takes fewer than MINIMUM_CELL_ALLOCATION_SIZE bytes of the page: SQLite pads shorter cells)
+        let sz : Int := if kind ≠ .tableInterior ∧ c.hasOverflow then c.end_ - c.start
+                        else max c.byteSize (Generated.MINIMUM_CELL_ALLOCATION_SIZE : Int)
         pure (cells ++ [c], subs ++ [sub], total + sz)
       let (cells, subs, cellTotal) ← (List.range hdr.nCells).foldlM step ([], [], 0)
       -- freeblocks
       let fbs ← (if hdr.firstFreeblock ≠ 0 then freeblockWalk page 65537 0 hdr.firstFreeblock [] else pure [])
       let fbTotal : Int := (fbs.map fun f => (f.byteSize : Int)).foldl (· + ·) 0
-      let regions : List Region := (cells.map fun c => ((c.start : Int), c.end_)) ++ (fbs.map fun f => ((f.start : Int), (f.end_ : Int)))
+      let regions : List Region := (cells.map fun c => ((c.start : Int), max c.end_ ((c.start : Int) + Generated.MINIMUM_CELL_ALLOCATION_SIZE))) ++ (fbs.map fun f => ((f.start : Int), (f.end_ : Int)))
       let lay ← layoutCheck v.strict v.pageSize unallocStart unallocEnd hdr.fragBytes regions cellTotal fbTotal
       let me : BPage := { number, ptype, hdr, pageVersion := pv, offset := off, unallocStart, unallocEnd,
                           cells, freeblocks := fbs, fragments := lay.fragments,
